@@ -131,3 +131,61 @@ Example mdns_example :
   map key (fst (fst (processMDNS [] [2;0;0;0;0;1] m))) = [([192;168;0;7], [109;121;104;111;115;116])] /\
   map key (snd (fst (processMDNS [] [2;0;0;0;0;1] m))) = [(repeat 1 16, [110;97;115;46;108;97;110;46])].
 Proof. vm_compute. split; reflexivity. Qed.
+
+(* ------------------------------------------------------------------ *)
+(* with the cache clock *)
+Lemma cache_find_put c mac id x : cache_find (cache_put c mac id x) mac id = Some x.
+Proof. unfold cache_put. cbn [cache_find]. unfold key_is. cbn [fst snd]. rewrite bytes_eqb_refl, N.eqb_refl. reflexivity. Qed.
+
+Lemma cache_find_delete c mac id : cache_find (cache_delete c mac id) mac id = None.
+Proof.
+  induction c as [|k r IH]; [reflexivity|]. cbn [cache_delete filter].
+  destruct (key_is mac id k) eqn:E; cbn [negb]; [exact IH|]. cbn [cache_find]. rewrite E. exact IH.
+Qed.
+
+Definition cache_fresh (c : mcache_t) (mac : bytes) (id : N) (now : Z) : bool :=
+  match cache_find c mac id with Some expiry => (now <? expiry)%Z | None => false end.
+
+(* a response for which no fresh cache entry exists (never seen, or seen at least 5 minutes ago) is
+   processed: the reference names, and the entry is renewed to now + 300 s *)
+Theorem mdns_at_response_names c mac now m : mm_response m = true -> cache_fresh c mac (mm_id m) now = false ->
+  map key (fst (fst (processMDNS_at c mac now m))) = ref_mdns_v4 (mm_resources m) /\
+  map key (snd (fst (processMDNS_at c mac now m))) = ref_mdns_v6 (mm_resources m) /\
+  cache_find (snd (processMDNS_at c mac now m)) mac (mm_id m) = Some (now + MDNS_CACHE_SECONDS)%Z.
+Proof.
+  intros Hr Hc. unfold processMDNS_at. rewrite Hr. cbn [negb]. unfold cache_fresh in Hc. rewrite Hc.
+  destruct (resp_loop_names (mm_resources m) [] [] []) as [H1 H2].
+  destruct (resp_loop (mm_resources m) [] [] []) as [[v4 v6] model]. cbn [fst snd] in *.
+  rewrite !set_model_keys. repeat split; auto. apply cache_find_put.
+Qed.
+
+(* while the entry is fresh the same (MAC, id) yields nothing and the cache is untouched *)
+Theorem mdns_at_response_cached c mac now m : mm_response m = true -> cache_fresh c mac (mm_id m) now = true ->
+  processMDNS_at c mac now m = (([], []), c).
+Proof. intros Hr Hc. unfold processMDNS_at. rewrite Hr. cbn [negb]. unfold cache_fresh in Hc. rewrite Hc. reflexivity. Qed.
+
+(* the 5 minutes: after a response processed at [now], the same (MAC, id) is suppressed at every
+   now' < now + 300 and processed again at every now' >= now + 300 *)
+Theorem mdns_at_expiry c mac now m now' : mm_response m = true -> cache_fresh c mac (mm_id m) now = false ->
+  let c' := snd (processMDNS_at c mac now m) in
+  cache_fresh c' mac (mm_id m) now' = (now' <? now + MDNS_CACHE_SECONDS)%Z.
+Proof.
+  intros Hr Hc. destruct (mdns_at_response_names c mac now m Hr Hc) as (_ & _ & Hf).
+  cbv zeta. unfold cache_fresh. rewrite Hf. reflexivity.
+Qed.
+
+(* queries do not touch the cache and do not depend on the clock *)
+Theorem mdns_at_query c mac now m : mm_response m = false ->
+  processMDNS_at c mac now m = (fst (processMDNS [] mac m), c).
+Proof.
+  intros Hr. unfold processMDNS_at, processMDNS. rewrite Hr. cbn [negb].
+  destruct (query_loop (mm_questions m) [] []) as [name manu]. destruct (nonempty name || nonempty manu); reflexivity.
+Qed.
+
+Example mdns_at_example :
+  let m := mkMsg 7 true [] [mkRes [97;46;108;111;99;97;108;46] (MB_A [10;0;0;1])] in
+  let mac := [2;0;0;0;0;1] in
+  let c1 := snd (processMDNS_at [] mac 1000 m) in
+  fst (processMDNS_at c1 mac 1299 m) = ([], []) /\
+  map key (fst (fst (processMDNS_at c1 mac 1300 m))) = [([10;0;0;1], [97])].
+Proof. vm_compute. split; reflexivity. Qed.
